@@ -19,8 +19,8 @@ ID = "C01"
 LEVEL = "exploration"
 COMPUTERS = ("superadditive", "superadditive_cached")
 RULE = ("Hypothesis RuleBasedStateMachine: hidden superadditive game (surplus construction: int / dyadic / float, "
-        "negative and non-zero-normalised included), start knowledge K0 >= minimal information, rules reveal / "
-        "unreveal (each either followed by compute_bounds() or deferred until a later recompute) / bulk reset to K' / recompute (also twice) / re-set a known value, then "
+        "negative, non-zero-normalised and zero-rich (exact zeros over negative singletons) included), start knowledge K0 >= minimal information, rules reveal / "
+        "unreveal (each either followed by compute_bounds() or deferred until a later recompute) / bulk reset to K' / recompute (also twice) / re-set a known value (revealed coalitions are built from player LISTINGS, the largest player named twice for odd sizes), then "
         "compute_bounds() on one object per computer ('superadditive', 'superadditive_cached'); plus all knowledge "
         "sets of n=3 (8) and n=4 (1024) for drawn games. Oracle: the hidden game itself. A case is non-trivial "
         "when at some step K held a non-minimal coalition and left one unknown AND the history contains an "
